@@ -82,6 +82,8 @@ type ctx struct {
 	opaqueK []string // kinds of the opaque callee's arguments (result type of the translated function)
 	loopVal map[string]string           // loop variables of loops being unrolled -> current constant value
 	iters   map[*ast.EmptyStmt]*iterInfo // continuation markers of unrolled loops
+	contCode map[*ast.EmptyStmt]string  // continuation markers of range loops -> code of "next element"
+	nrange  int
 	oracleN map[string]int              // per oracle name: calls seen so far
 	opaqueL map[string]bool             // locals of unsupported type (usable only as arguments of oracle calls)
 	outF    []string                    // Coq names of the out fields
@@ -610,7 +612,35 @@ func (c *ctx) pkgVar(v *types.Var, pos token.Pos) gexp {
 	return gexp{e: "Consts." + v.Name()}
 }
 
+func isByteArray(t types.Type) bool {
+	if t == nil {
+		return false
+	}
+	a, ok := t.Underlying().(*types.Array)
+	if !ok {
+		return false
+	}
+	e, ok := a.Elem().Underlying().(*types.Basic)
+	return ok && e.Kind() == types.Uint8
+}
+
 func (c *ctx) binary(x *ast.BinaryExpr, k string) gexp {
+	// == / != of fixed-size byte arrays (hashes, addresses, token standards) hanging off parameters: each side is an
+	// input holding the bytes as one big-endian number (injective for a fixed length)
+	if (x.Op == token.EQL || x.Op == token.NEQ) && isByteArray(c.info.Types[x.X].Type) && isByteArray(c.info.Types[x.Y].Type) &&
+		kindOf(c.info.Types[x.X].Type) != "le64" {
+		side := func(e ast.Expr) gexp {
+			if !c.rootParam(e) {
+				bad(e.Pos(), "byte-array comparison of %s which does not hang off a parameter", exprString(e))
+			}
+			return c.leaf(e, "big", "")
+		}
+		a, b := side(x.X), side(x.Y)
+		if x.Op == token.EQL {
+			return gexp{e: "(" + a.e + " =? " + b.e + ")"}
+		}
+		return gexp{e: "(negb (" + a.e + " =? " + b.e + "))"}
+	}
 	a := c.expr(x.X)
 	b := c.expr(x.Y)
 	ka := kindOf(c.info.Types[x.X].Type)
@@ -1078,12 +1108,17 @@ func (c *ctx) stmts(list []ast.Stmt) string {
 	case *ast.SwitchStmt:
 		return c.switchStmt(x, rest)
 	case *ast.EmptyStmt:
+		if code, ok := c.contCode[x]; ok {
+			return code
+		}
 		if it, ok := c.iters[x]; ok {
 			return c.iterate(it)
 		}
 		return c.stmts(rest)
 	case *ast.ForStmt:
 		return c.forStmt(x, rest)
+	case *ast.RangeStmt:
+		return c.rangeStmt(x, rest)
 	}
 	bad(s.Pos(), "unsupported statement %T", s)
 	return ""
@@ -1157,6 +1192,89 @@ func (c *ctx) forStmt(x *ast.ForStmt, rest []ast.Stmt) string {
 		}
 	}
 	return c.iterate(&iterInfo{name: id.Name, vals: vals, idx: 0, body: body, rest: rest})
+}
+
+// rangeStmt: `for _, v := range L { body }` over a slice L that hangs off a parameter / an opaque local (e.g. an oracle
+// result). L becomes the input L_items : list (tuple of the scalar leaves of v the body reads); the loop becomes a
+// structural fixpoint over that list; an early `return` in the body returns, falling off the body goes on with the
+// next element, after the last element the statements after the loop run. The body may not assign variables declared
+// outside it (no loop-carried state), nor break / continue.
+func (c *ctx) rangeStmt(x *ast.RangeStmt, rest []ast.Stmt) string {
+	if x.Tok != token.DEFINE || x.Value == nil {
+		bad(x.Pos(), "unsupported range loop (needs `for _, v := range`)")
+	}
+	if k, ok := x.Key.(*ast.Ident); !ok || k.Name != "_" {
+		bad(x.Pos(), "unsupported range loop (index is used)")
+	}
+	v, ok := x.Value.(*ast.Ident)
+	if !ok || !c.rootParam(x.X) {
+		bad(x.Pos(), "unsupported range loop (the slice %s does not hang off a parameter)", exprString(x.X))
+	}
+	ast.Inspect(x.Body, func(n ast.Node) bool {
+		check := func(e ast.Expr) {
+			if id, ok := e.(*ast.Ident); ok {
+				if obj := c.info.Uses[id]; obj != nil && (obj.Pos() < x.Body.Pos() || obj.Pos() > x.Body.End()) {
+					bad(e.Pos(), "range loop assigns %s declared outside the loop (loop-carried state is not supported)", id.Name)
+				}
+			} else if _, ok := c.fieldName(e); ok {
+				bad(e.Pos(), "range loop assigns a field of a parameter")
+			}
+		}
+		switch st := n.(type) {
+		case *ast.AssignStmt:
+			for _, l := range st.Lhs {
+				check(l)
+			}
+		case *ast.IncDecStmt:
+			check(st.X)
+		}
+		return true
+	})
+	c.nrange++
+	n := c.nrange
+	lname := sanitize(exprString(x.X)) + "_items"
+	prefix := sanitize(v.Name) + "_"
+	if c.contCode == nil {
+		c.contCode = map[*ast.EmptyStmt]string{}
+	}
+	marker := &ast.EmptyStmt{}
+	c.contCode[marker] = fmt.Sprintf("(loop_%d tl_%d)", n, n)
+	hadP := c.params[v.Name]
+	c.params[v.Name] = true
+	before := len(c.leaves)
+	body := c.stmts(append(append([]ast.Stmt{}, x.Body.List...), marker))
+	c.params[v.Name] = hadP
+	// the element's fields = the inputs first seen inside the body whose name starts with the element's name
+	var fields, ftys, keep []string
+	keep = append(keep, c.leaves[:before]...)
+	for _, l := range c.leaves[before:] {
+		if strings.HasPrefix(l, prefix) {
+			fields = append(fields, l)
+			ftys = append(ftys, c.leafTy[l])
+			delete(c.leafTy, l)
+		} else {
+			keep = append(keep, l)
+		}
+	}
+	c.leaves = keep
+	for _, l := range c.leaves[:before] {
+		if strings.HasPrefix(l, prefix) {
+			bad(x.Pos(), "input %s clashes with the element variable of the range loop", l)
+		}
+	}
+	ety, pat := "unit", "_"
+	if len(fields) > 0 {
+		ety = strings.Join(ftys, " * ")
+		pat = "'(" + strings.Join(fields, ", ") + ")"
+	}
+	if _, ok := c.leafTy[lname]; ok {
+		bad(x.Pos(), "two range loops over %s", lname)
+	}
+	c.leafTy[lname] = "list (" + ety + ")"
+	c.leaves = append(c.leaves, lname)
+	after := c.stmts(rest)
+	return fmt.Sprintf("((fix loop_%d (l_%d : list (%s)) := match l_%d with nil => %s | cons hd_%d tl_%d => let %s := hd_%d in %s end) %s)",
+		n, n, ety, n, after, n, n, pat, n, body, lname)
 }
 
 func (c *ctx) iterate(it *iterInfo) string {
